@@ -48,6 +48,10 @@ def main : IO Unit := do
     chk2 "summary sweep: zero-length piece test" (fun a _ => s (Gen.bs_skip a)) (fun a _ => s (decide (a = 0))) "length, -",
     chk2 "pybigtools array routines: an integer after its conversion to float" (fun x _ => toString (Gen.pyb_conv_to_array x ++ Gen.pyb_conv_to_array_bins x ++ Gen.pyb_conv_to_entry_array x ++ Gen.pyb_conv_to_entry_array_bins x).eraseDups) (fun x _ => toString [x]) "integer, -",
     chk2 "bare write calls on a destination (the count is ignored; a destination taking 4 bytes per call loses the rest of a longer buffer)" (fun _ _ => toString (Gen.wr_bare_write_bbiwrite ++ Gen.wr_bare_write_bigwigwrite ++ Gen.wr_bare_write_bigbedwrite ++ Gen.wr_bare_write_tempfilebuffer)) (fun _ _ => toString ([] : List String)) "-, -",
+    chk2 "block fetch: bytes read at the block's offset" (fun bs u => n (Gen.rb_raw_len u bs bs)) (fun bs _ => n bs) "block size, uncompress_buf_size",
+    chk2 "block fetch: inflate buffer (compressed block of 20 bytes)" (fun u _ => n (Gen.rb_inflate_buf (5000 + u) 20 20)) (fun u _ => n (5000 + u)) "uncompress_buf_size − 5000, -",
+    chk2 "block fetch: inflate buffer" (fun u bs => n (Gen.rb_inflate_buf u bs bs)) (fun u _ => n u) "uncompress_buf_size, block size",
+    chk2 "block fetch: compressed file test" (fun u bs => s (Gen.rb_compressed u bs bs)) (fun u _ => s (decide (u > 0))) "uncompress_buf_size, block size",
     chk2 "bigWig value length" (fun e st => n (Gen.wig_len e st)) (fun e st => n (e - st)) "end, start",
     chk2 "section cut (bigWig), not the last item" (fun k i => s (Gen.wig_cut false k i)) (fun k i => s (decide (k ≥ min i 65535))) "items, items_per_slot",
     chk2 "section cut (bigBed), not the last item" (fun k i => s (Gen.bed_cut false k i)) (fun k i => s (decide (k ≥ min i 65535))) "items, items_per_slot",
